@@ -854,7 +854,13 @@ pub fn main(args: &[String]) {
     }
     let text = std::fs::read_to_string(input.expect("--in")).expect("read input");
     let scs: Vec<Value> = text.lines().filter(|l| !l.trim().is_empty()).map(|l| serde_json::from_str(l).expect("json")).collect();
-    std::panic::set_hook(Box::new(|_| {}));
+    // panics of the code under test (connection tasks) are counted; with --report-panics a final record says how many there were
+    static PANICS: std::sync::atomic::AtomicUsize = std::sync::atomic::AtomicUsize::new(0);
+    std::panic::set_hook(Box::new(|_| {
+        PANICS.fetch_add(1, std::sync::atomic::Ordering::Relaxed);
+    }));
+    let report_panics = args.iter().any(|a| a == "--report-panics");
+    let n_scs = scs.len();
     let rt = tokio::runtime::Builder::new_multi_thread().worker_threads(8).enable_all().build().unwrap();
     let out = rt.block_on(async move {
         let sem = Arc::new(tokio::sync::Semaphore::new(parallel));
@@ -882,6 +888,12 @@ pub fn main(args: &[String]) {
         }
         out
     });
+    let mut out = out;
+    let panics = PANICS.load(std::sync::atomic::Ordering::Relaxed);
+    if report_panics && panics > 0 {
+        out.push_str(&json!({"family": "panicked", "count": panics, "line": n_scs + 1}).to_string());
+        out.push('\n');
+    }
     std::fs::write(output.expect("--out"), out).expect("write output");
     std::process::exit(0);
 }
